@@ -13,6 +13,10 @@ class KafkaException(Exception):
     pass
 
 
+class FetchBlockedForEver(RuntimeError):
+    """raised by the stand-in (never by Kafka) to end a fetch that would otherwise block the process for good"""
+
+
 class TopicPartition:
     def __init__(self, topic, partition=-1, offset=OFFSET_INVALID):
         self.topic = topic
@@ -45,6 +49,11 @@ class Message:
     def error(self):
         return None
 
+    def __len__(self):
+        # as in confluent_kafka: len(message) is the length of its value, so a message with an empty value (or a
+        # tombstone, value None) is falsy
+        return len(self._v) if self._v is not None else 0
+
 
 class Broker:
     def __init__(self, topic, npartitions):
@@ -59,6 +68,7 @@ class Broker:
         self.n_committed = 0
         self.fetch_failures = set()                        # indices (per incarnation) of assign() calls that fail
         self.n_assign = 0
+        self.empty_rule = None                             # (rate, salt, 'b' | 'none' | 'mix'): which messages have an empty value
 
     def note(self, *a):
         self.journal.append(a)
@@ -72,6 +82,12 @@ class Broker:
             self.note('hole', partition, len(self.logs[partition]) - 1)
         off = len(self.logs[partition])
         value = ('p%d-o%d' % (partition, off)).encode()
+        if self.empty_rule:
+            import zlib
+            rate, salt, kind = self.empty_rule
+            z = zlib.crc32(('%d-%d-%d' % (salt, partition, off)).encode()) % 1000
+            if z < rate * 1000:
+                value = b'' if kind == 'b' or (kind == 'mix' and z % 2) else None      # empty payload / tombstone
         self.logs[partition].append((key, value))
         self.note('produce', partition, off)
         return value
@@ -129,7 +145,14 @@ class Consumer:
             k, v = self.b.logs[p][self.pos]
             m = Message(t, p, self.pos, k, v)
             self.pos += 1
+            self.idle_polls = 0
             return m
+        # nothing (more) in the partition.  The callers poll in a blocking loop on the event-loop thread: while they do, the
+        # virtual-time history cannot move on, so nothing will ever arrive -- a caller that keeps polling is blocked for ever
+        self.idle_polls = getattr(self, 'idle_polls', 0) + 1
+        if self.idle_polls > 200:
+            self.b.note('fetch_blocked_for_ever', p, self.pos)
+            raise FetchBlockedForEver('the fetch of partition %d keeps polling at offset %d, beyond the last message' % (p, self.pos))
         return None
 
     def assign(self, tps):
